@@ -30,6 +30,7 @@ func NewCustom(signer crypto.Key) *config.Custom {
 }
 
 type Sim struct {
+	LastWriteCommits int // separate Badger commits made by the latest WriteSnapshot call of Finalize
 	Net    *verifgen.Net
 	Custom *config.Custom
 	Store  *storage.BadgerStore
@@ -163,7 +164,9 @@ func (s *Sim) Finalize(txs []*common.VersionedTransaction, ts uint64) (snap *com
 				err = fmt.Errorf("panic: %v", e)
 			}
 		}()
+		v0 := s.Store.VerifCommitVersion()
 		err = s.Store.WriteSnapshot(snap, []crypto.Hash{s.Chain})
+		s.LastWriteCommits = int(s.Store.VerifCommitVersion() - v0)
 	}()
 	if err != nil {
 		return snap, panicked, err
